@@ -104,7 +104,7 @@ func c15Item(kind string, id string, c ap.CollectionPath, explicit string) (ds [
 	var x ap.Item
 	fieldOf := map[ap.CollectionPath]string{ap.Inbox: "Inbox", ap.Outbox: "Outbox", ap.Followers: "Followers", ap.Following: "Following", ap.Liked: "Liked",
 		ap.Likes: "Likes", ap.Shares: "Shares", ap.Replies: "Replies"}
-	switch kind {
+	switch strings.TrimSuffix(kind, "/val") {
 	case "actor":
 		x = &ap.Actor{ID: ap.IRI(id), Type: ap.PersonType}
 	case "object":
@@ -112,9 +112,10 @@ func c15Item(kind string, id string, c ap.CollectionPath, explicit string) (ds [
 	default:
 		// any other object type as the owner (kind = its Go type): a collection is an object too, and owns collections the same way;
 		// the ones that hold members hold one, which has nothing to do with the collections the holder owns
-		p := reflect.New(vocab.StructType(kind))
+		gt := strings.TrimSuffix(kind, "/val")
+		p := reflect.New(vocab.StructType(gt))
 		p.Elem().FieldByName("ID").SetString(id)
-		p.Elem().FieldByName("Type").SetString(string(vocab.DefaultType[kind]))
+		p.Elem().FieldByName("Type").SetString(string(vocab.DefaultType[gt]))
 		for _, n := range []string{"Items", "OrderedItems"} {
 			if f := p.Elem().FieldByName(n); f.IsValid() {
 				f.Set(reflect.ValueOf(ap.ItemCollection{ap.IRI("https://example.com/members/1"), &ap.Actor{ID: "https://example.com/members/2", Type: ap.PersonType}}))
@@ -122,6 +123,8 @@ func c15Item(kind string, id string, c ap.CollectionPath, explicit string) (ds [
 		}
 		x = p.Interface().(ap.Item)
 	}
+	// "<kind>/val": the same owner handed over by value instead of by pointer
+	byValue := strings.HasSuffix(kind, "/val")
 	var want ap.Item
 	f := reflect.ValueOf(x).Elem().FieldByName(fieldOf[c])
 	if f.IsValid() && explicit != "" {
@@ -137,6 +140,9 @@ func c15Item(kind string, id string, c ap.CollectionPath, explicit string) (ds [
 		hasExplicit = true
 	}
 	cls := kind + " " + string(c)
+	if byValue {
+		x = reflect.ValueOf(x).Elem().Interface().(ap.Item)
+	}
 	pi := evSafe(func() {
 		gotIRI := c.IRI(x)
 		gotOf := c.Of(x)
@@ -168,7 +174,7 @@ func TestC15(t *testing.T) {
 	defer r.Close(t)
 	r.Rule("owners: scheme x host(+port) x 0..3 path segments from an alphabet with unreserved characters, percent-escapes, ~ and collection names, optional trailing slashes, no query/fragment, x all 8 collection names: " +
 		"Split(IRIf(o,c)) returns c and an owner equivalent (reference normaliser, scheme compared) to o; c.OfActor(c.IRI(o)) ≡ o; ValidCollectionIRI(IRIf(o,c)); !ValidCollectionIRI(o) when o's cleaned last " +
-		"segment is no collection name. items: an actor, an object and a value of each of the other 11 object types (collections holding two members) as the owner x 8 names x {no explicit property, explicit IRI, explicit embedded collection}: explicit property wins, else ≡ IRIf(id,c). " +
+		"segment is no collection name. items: an actor, an object and a value of each of the other 11 object types (collections holding two members) as the owner, by pointer and by value, x 8 names x {no explicit property, explicit IRI, explicit embedded collection}: explicit property wins, else ≡ IRIf(id,c). " +
 		"non-trivial = owner has a trailing slash, port, escape or collection-named segment, or the item has an explicit property; distinct by (owner, name)")
 
 	segs := []string{"users", "~jdoe", "a.b", "%20x", "%41", "a%2Fb", "inbox", "Followers", "replies", "x_y-z", "ü"}
@@ -217,6 +223,9 @@ func TestC15(t *testing.T) {
 			if st.Name() != "Link" && st.Name() != "Object" && st.Name() != "Actor" {
 				kinds = append(kinds, st.Name())
 			}
+		}
+		for _, k := range append([]string{}, kinds...) {
+			kinds = append(kinds, k+"/val")
 		}
 		for _, kind := range kinds {
 			for _, id := range []string{"https://example.com/users/jdoe", "https://example.com:8443/~a/", "http://sub.example.org/inbox/b", "https://example.com"} {
